@@ -31,7 +31,7 @@ ASSUMPTIONS = [
     'an operation hit by an injected fault may raise the injected exception or a DB-API Error, or return the reference result - never different data',
     'today(), joinstr() and repr() are excluded from workloads (clock, hash-order, addresses)',
 ]
-PROBES = ['cursor_reused', 'params_container_reused_in_place', 'table_content_replaced', 'ledger_replaced', 'ast_reexecuted', 'ast_reexecuted_after_failure', 'ast_reexecuted_other_params', 'executemany_multi',
+PROBES = ['via_run_query', 'cursor_reused', 'params_container_reused_in_place', 'table_content_replaced', 'ledger_replaced', 'ast_reexecuted', 'ast_reexecuted_after_failure', 'ast_reexecuted_other_params', 'executemany_multi',
           'nested_execution', 'nested_same_ast', 'late_table_retry', 'positional_ge2', 'named_repeated', 'placeholder_in_subquery',
           'placeholder_in_order_by', 'fault_then_execute', 'fold_pair_compared', 'literal_twin_compared', 'from_clause_then_plain',
           'balance_stmt_nested_in_balance_stmt']
@@ -321,12 +321,15 @@ def generate(rng, tier, run):
                 mode = rng.choice(['pos', 'named', 'lit']) if pool[i]['types'] else 'lit'
                 ops.append({'op': 'exec', 'stmt': i, 'mode': mode, 'vals': [world.enc(v) for v in gen_vals(rng, pool[i])],
                             'real_parse': rng.random() < 0.04, 'twin_real': rng.random() < 0.02})
+                if not pool[i]['types'] and rng.random() < 0.04 and '#t' not in pool[i]['t'] and 'verif_' not in pool[i]['t']:
+                    ops[-1]['via'] = 'run_query'
                 if enable['samecursor']:
                     # DB-API style: one long-lived cursor per client; optionally the same statement again with the
                     # caller's parameter container updated in place
                     ops[-1]['cursor'] = 'own'
                     if ops and len(ops) >= 2 and ops[-2].get('op') == 'exec' and rng.random() < 0.45:
                         prev = ops[-2]
+                        ops[-1].pop('via', None)
                         ops[-1].update({'stmt': prev['stmt'], 'mode': prev['mode'], 'reuse_params': rng.random() < 0.7,
                                         'vals': [world.enc(v) for v in gen_vals(rng, pool[prev['stmt']])], 'real_parse': prev.get('real_parse', False)})
                 if enable['badparams'] and pool[i]['types'] and mode != 'lit' and rng.random() < 0.15:
@@ -564,7 +567,20 @@ def execute(case, keep_log=False):
                 S.arm(op.get('fault'))
             fired0 = sum(S.fired.values())
             try:
-                got = guarded(lambda: run_stmt(conn, arg, params, cur))
+                if op.get('via') == 'run_query' and params is None and nested_same_ast is None and not st['types'] \
+                        and '#t' not in text and 'verif_' not in text:
+                    # the convenience entry point: its own connection over the same entries
+                    S.probes['via_run_query'] += 1
+                    from beanquery import query as bq_query
+                    ents = conn.tables['postings'].entries
+                    opts = conn.tables['postings'].options
+
+                    def via():
+                        rt, rr = bq_query.run_query(ents, opts, text.replace('{', '{{').replace('}', '}}'))
+                        return ('ok', [[c.name, core.type_name(c.datatype)] for c in rt], canon_rows(rr))
+                    got = guarded(via)
+                else:
+                    got = guarded(lambda: run_stmt(conn, arg, params, cur))
             finally:
                 active_bal[0] -= isbal
             if S.reenter_depth == 0:
